@@ -125,11 +125,18 @@ def check_get(ck, get, touching, validator="validate_absolute_path", joiner="get
     aliases = set()
     vnodes = []
     assigns = cfg.stmt_nodes(lambda n: n.kind == "stmt" and isinstance(n.ast, ast.Assign))
+    loose = []
     for n in assigns:
         if self_call_name(n.ast.value) == validator:
             aliases |= q.assigned_paths(n.ast)
             vnodes.append(n)
-    ck.floor("C26.get-validated", len(vnodes), 1, "assignments from validate_absolute_path in get")
+        elif any(self_call_name(x) == validator for x in ast.walk(n.ast.value)):
+            # the validator's result is only one of several values stored (conditional expression, `or` fallback ...)
+            aliases |= q.assigned_paths(n.ast)
+            loose.append(n)
+    for n in loose:
+        ck.ob("C26.get-validated", get, n.ast, False, "the value stored is the validator's result on every path, not an expression that can bypass it")
+    ck.floor("C26.get-validated", len(vnodes) + len(loose), 1, "assignments from validate_absolute_path in get")
     changed = True
     while changed:
         changed = False
@@ -228,6 +235,9 @@ def containment_test(e, X, R):
     names = {n.id for n in ast.walk(e) if isinstance(n, ast.Name)}
     if not ({X, R} <= names):
         return None
+    if isinstance(e, ast.Call) and isinstance(e.func, ast.Attribute) and e.func.attr == "startswith" and len(e.args) == 1 and not (isinstance(e.args[0], ast.Name) and e.args[0].id == R) \
+            and R in {n.id for n in ast.walk(e.args[0]) if isinstance(n, ast.Name)}:
+        return ("prefix-derived", q.unparse(e.args[0]))
     if isinstance(e, ast.Call) and isinstance(e.func, ast.Attribute) and e.func.attr == "startswith" and len(e.args) == 1 and isinstance(e.args[0], ast.Name) and e.args[0].id == R:
         v = e.func.value
         if isinstance(v, ast.Name) and v.id == X:
@@ -237,6 +247,10 @@ def containment_test(e, X, R):
         raise AnalysisError("validate_absolute_path: prefix test on an unrecognised string: %s" % q.unparse(e))
     if isinstance(e, ast.Compare) and len(e.ops) == 1 and isinstance(e.ops[0], ast.Eq):
         for a, b in ((e.left, e.comparators[0]), (e.comparators[0], e.left)):
+            if isinstance(a, ast.Call) and q.dotted(a.func) == "os.path.commonprefix" and isinstance(b, ast.Name) and b.id == R and len(a.args) == 1 and isinstance(a.args[0], (ast.List, ast.Tuple)) and len(a.args[0].elts) == 2:
+                others = [x for x in a.args[0].elts if not (isinstance(x, ast.Name) and x.id == R)]
+                if len(others) == 1 and ((isinstance(others[0], ast.Name) and others[0].id == X) or (isinstance(others[0], ast.BinOp) and isinstance(others[0].op, ast.Add) and isinstance(others[0].left, ast.Name) and others[0].left.id == X and is_sep(others[0].right))):
+                    return ("prefix", True)  # character-wise common prefix == root  <=>  startswith(root): needs the separator-terminated root
             if isinstance(a, ast.Call) and q.dotted(a.func) == "os.path.commonpath" and isinstance(b, ast.Name) and b.id == R and len(a.args) == 1 and isinstance(a.args[0], (ast.List, ast.Tuple)) \
                     and {getattr(x, "id", None) for x in a.args[0].elts} == {X, R}:
                 return ("common",)
@@ -330,7 +344,7 @@ def check_validator(ck, fi):
             e = n.ast
             if n.id in tids and kind == "true":
                 k = tids[n.id]
-                if k[0] == "common" or rootsep:
+                if k[0] == "common" or (k[0] == "prefix" and rootsep):
                     contained = True
             else:
                 pol = ends_with_sep(e, R, X)
@@ -342,6 +356,8 @@ def check_validator(ck, fi):
     ck.ob("C26.contained", fi, fi.node, len(tests) >= 1, "validate_absolute_path contains a prefix (or commonpath) test of the path against the root", construct="containment test present")
     # root separator at the prefix test
     for n, k in tests:
+        if k[0] == "prefix-derived":
+            ck.ob("C26.root-sep", fi, n.ast, False, "the prefix that is tested is the separator-terminated root itself, not an expression derived from it (%s) whose trailing separator is not established" % k[1])
         if k[0] == "prefix":
             states = seen.get(n.id, set())
             ok = bool(states) and all(rs for _f, (_c, rs) in states)
@@ -377,6 +393,28 @@ def check_validator(ck, fi):
                 okret = isinstance(node.value, ast.Name) and node.value.id == X
                 ck.ob("C26.contained", fi, node, okret, "the returned path is the contained path", construct="returned value")
     ck.floor("C26.contained", g, 4, "governed sites in validate_absolute_path")
+    # a path is returned only for a regular file (a directory or a missing file must end in 403/404, not in a 500 from open/stat)
+    from ..x_secflow import edge_dominates
+
+    ftests = [t for t in cfg.stmt_nodes(lambda t: t.kind == "test") if isinstance(t.ast, ast.Call) and q.dotted(t.ast.func) == "os.path.isfile" and len(t.ast.args) == 1 and isinstance(t.ast.args[0], ast.Name) and t.ast.args[0].id == X]
+    for n in cfg.stmt_nodes(lambda n: n.kind == "stmt" and isinstance(n.ast, ast.Return) and n.ast.value is not None and not (isinstance(n.ast.value, ast.Constant) and n.ast.value.value is None)):
+        back = _reach_to(cfg, n.id)
+        ok = False
+        for t in ftests:
+            if not edge_dominates(cfg, t, "true", n):
+                continue
+            fwd = set()
+            for sid, kind in cfg.succ[t.id]:
+                if kind == "true":
+                    fwd |= _reach_from(cfg, sid)
+            stale = [i for i in fwd & back if cfg.nodes[i].kind == "stmt" and isinstance(cfg.nodes[i].ast, ast.stmt) and X in q.assigned_paths(cfg.nodes[i].ast)]
+            if not stale:
+                ok = True
+        ck.ob("C26.regular-file", fi, n.ast, ok, "a path is returned only on the success edge of os.path.isfile(<the contained path>) - directories and missing files end in 403/404")
+    for t in ftests:
+        for f in [cfg.nodes[sid] for sid, kind in cfg.succ[t.id] if kind == "false"]:
+            reach = _reach_from(cfg, f.id)
+            ck.ob("C26.regular-file", fi, t.ast, cfg.exit.id not in reach, "the failing edge of the isfile test cannot reach a normal return", construct="failing edge of isfile")
     # all raises are 403/404
     for x in own_nodes(fi.node):
         if isinstance(x, ast.Raise):
@@ -389,6 +427,18 @@ def _reach_from(cfg, nid):
     while st:
         x = st.pop()
         for y, _k in cfg.succ[x]:
+            if y not in seen:
+                seen.add(y)
+                st.append(y)
+    return seen
+
+
+def _reach_to(cfg, nid):
+    seen = {nid}
+    st = [nid]
+    while st:
+        x = st.pop()
+        for y, _k in cfg.pred[x]:
             if y not in seen:
                 seen.add(y)
                 st.append(y)
@@ -502,6 +552,7 @@ def run(ck):
     ck.rule("C26.contained", "validate_absolute_path: filesystem predicates, the redirect and every returned path are dominated by the success of the containment test on the current path value")
     ck.rule("C26.root-sep", "validate_absolute_path: the root is separator-terminated when the prefix test is evaluated")
     ck.rule("C26.fail-status", "validate_absolute_path: the failing edge of the containment test ends in HTTPError(403|404); all its raises are 403/404")
+    ck.rule("C26.regular-file", "validate_absolute_path returns a path only for an existing regular file; everything else raises 403/404")
     ck.rule("C26.single-writer", "self.absolute_path is written only from validate_absolute_path in get(); self.root/default_filename only from configuration")
     ck.rule("C26.fs-args", "every filesystem primitive in StaticFileHandler operates on the validated path or on a parameter fed from it")
     ck.rule("C26.head", "head() delegates to get() for the same path")
@@ -575,6 +626,12 @@ MUTANTS = [
     ("get: validator bypassed for the root path", _in("get", replace_stmt(lambda st: isinstance(st, ast.Assign) and "validate_absolute_path" in ast.unparse(st), lambda st: [ast.If(test=parse_expr("self.path"), body=[st], orelse=[parse_stmt("self.absolute_path = absolute_path")])])), ("C26.get-validated", "C26.single-writer")),
     ("get: validator given '/' as root", _in("get", replace_expr(lambda n: isinstance(n, ast.Call) and q.call_attr(n) == "validate_absolute_path", lambda n: ast.Call(func=n.func, args=[ast.Constant(value="/")] + n.args[1:], keywords=[]))), "C26.get-flow"),
     ("_stat inspects root + request path", lambda repo: mutate(repo, W, SF + "._stat", replace_expr(lambda n: isinstance(n, ast.Call) and q.dotted(n.func) == "os.stat", lambda n: parse_expr("os.stat(os.path.join(self.root, self.path))"))), "C26.fs-args"),
+    ("prefix tested against the root with its separator stripped", _in("validate_absolute_path", replace_expr(lambda n: isinstance(n, ast.Call) and q.call_attr(n) == "startswith" and ast.unparse(n.args[0]) == "root", lambda n: ast.Call(func=n.func, args=[parse_expr("root.rstrip(os.path.sep)")], keywords=[]))), "C26.root-sep"),
+    ("regular-file test dropped (directories reach open/stat)", _in("validate_absolute_path", remove_stmts(lambda st: isinstance(st, ast.If) and "isfile" in ast.unparse(st.test))), "C26.regular-file"),
+    ("regular-file test applied to the pre-default path", _in("validate_absolute_path", lambda root: _isfile_early(root)), ("C26.regular-file", "C26.contained")),
+    ("default file name joined after the regular-file test", _in("validate_absolute_path", lambda root: _join_after_isfile(root)), "C26.regular-file"),
+    ("character-wise commonprefix against the unterminated root", _in("validate_absolute_path", lambda root: _commonprefix(root)), "C26.root-sep"),
+    ("get: validation skipped for HEAD requests", _in("get", replace_expr(lambda n: isinstance(n, ast.Call) and q.call_attr(n) == "validate_absolute_path", lambda n: ast.IfExp(test=ast.Name(id="include_body", ctx=ast.Load()), body=n, orelse=ast.Name(id="absolute_path", ctx=ast.Load())))), "C26.get-validated"),
     ("404 for missing file turned into a different error", _in("validate_absolute_path", replace_expr(lambda n: isinstance(n, ast.Constant) and n.value == 404, lambda n: ast.Constant(value=500))), "C26.fail-status"),
 ]
 
@@ -587,3 +644,31 @@ def _swap_abspath(root):
         return False
     body[ai], body[si] = body[si], body[ai]
     return True
+
+
+def _isfile_early(root):
+    """exists/isfile checked before the default file name is joined: the joined path is returned unchecked."""
+    body = root.body
+    di = next((i for i, st in enumerate(body) if isinstance(st, ast.If) and "isdir" in ast.unparse(st.test)), None)
+    fi_ = next((i for i, st in enumerate(body) if isinstance(st, ast.If) and "isfile" in ast.unparse(st.test)), None)
+    if di is None or fi_ is None or fi_ < di:
+        return False
+    st = body.pop(fi_)
+    st.test = ast.parse("not (os.path.isfile(absolute_path) or os.path.isdir(absolute_path))", mode="eval").body
+    body.insert(di, st)
+    return True
+
+
+def _join_after_isfile(root):
+    body = root.body
+    fi_ = next((i for i, st in enumerate(body) if isinstance(st, ast.If) and "isfile" in ast.unparse(st.test)), None)
+    if fi_ is None:
+        return False
+    body.insert(fi_ + 1, ast.parse("if self.default_filename is not None and os.path.isdir(absolute_path):\n    absolute_path = os.path.join(absolute_path, self.default_filename)").body[0])
+    return True
+
+
+def _commonprefix(root):
+    a = remove_stmts(lambda st: isinstance(st, ast.If) and "endswith" in ast.unparse(st.test))(root)
+    b = replace_expr(lambda n: isinstance(n, ast.Call) and q.call_attr(n) == "startswith" and ast.unparse(n.args[0]) == "root", lambda n: parse_expr("os.path.commonprefix([root, absolute_path]) == root"))(root)
+    return a and b
